@@ -277,6 +277,16 @@ def main():
         rep.violation("c12:pub-constant-initialiser-not-resolvable-in-importer", {"files": dict(probe), "implementation": pa[:300]})
     else:
         rep.notes.append("known finding F37 no longer reproduces on its probe")
+    # the silent variant: the importer has a PRIVATE constant of the same name as the private constant that the spliced
+    # initialiser mentions - the pub constant then has another value in the importer than in its own module (F69)
+    cap = [("lib.pn", "const X: i32 = 3;\npub const Y: i32 = X + 1;\npub fn y_at_home() -> i32\n{\n\treturn: Y\n}\n"),
+           ("main.pn", 'import "lib.pn";\nconst X: i32 = 100;\nfn main() -> i32\n{\n\treturn: Y * 10 + y_at_home()\n}\n')]
+    ca = run_harness_serial(["alpha\trun\t" + "\t".join(x for nm, src in cap for x in (nm, esc(src)))])[0]
+    ch_, cd_ = kv(ca)
+    if ch_ == "ok" and cd_.get("status") != "44":
+        rep.violation("c12:pub-constant-initialiser-captures-importers-private-name", {
+            "why": "Y = X + 1 with X = 3 private to lib.pn is 4 in lib.pn; the importer, which has its own private X = 100, must see 4 too "
+                   "(status 44 expected), got status %s" % cd_.get("status"), "files": dict(cap), "implementation": ca[:300]})
     # the same leak through the other places where a pub declaration carries an expression or a length of its own module:
     # an array length in a pub structure or in the type of a pub constant that names a private constant
     for what, lib, mainsrc in (
